@@ -53,6 +53,98 @@ EXTRA={
  'deleteHashTableFields': ['//@ loop "for _, fieldName := range fieldNames" invariant [C04] gone: allsel(i, 0, ri1, !m.vdom[fieldNames[i]])',
             '//@ loop "for _, fieldName := range fieldNames" invariant m != nil',
             '//@ assertbefore "break" [C04] emptied: m.count == 0 && !dsc.ds.data.vdom[keyName]'],
+ 'diffWorker': ['//@ ghostentry gAcc = gEmptySet',
+            '//@ requires free emptyset: allstr(q, !gEmptySet[q])',
+            '//@ ghostafter "m2 := sk2.getSet()" : if m2 != nil : gSnapDom = d.vdom',
+            '//@ ghostafter "m2 := sk2.getSet()" : if m2 != nil : gAccPrev = gAcc',
+            '//@ ghostafter "m2 := sk2.getSet()" : if m2 != nil : gAcc = mapunion(gAcc, m2.vdom)',
+            '//@ loop "for _, keyName := range keyNames" invariant [C05] fresh: d != nil && m != nil && d.scratch && !m.scratch && !wrongType',
+            '//@ loop "for _, keyName := range keyNames" invariant [C05] operands: forall r *redisDict :: asref(r) < old(alloc()) ==> r.vdom == old(r.vdom) && r.vval == old(r.vval) && r.count == old(r.count)',
+            '//@ loop "for _, keyName := range keyNames" invariant [C05] result: allstr(q, d.vdom[q] == (m.vdom[q] && !gAcc[q]))',
+            '//@ loop "for i := m2.createIterator(); i.next();" invariant [C05] fresh: d != nil && m != nil && m2 != nil && d.scratch && !m.scratch && !m2.scratch && i != nil && i.dict == m2 && !wrongType',
+            '//@ loop "for i := m2.createIterator(); i.next();" invariant [C05] operands: forall r *redisDict :: asref(r) < old(alloc()) ==> r.vdom == old(r.vdom) && r.vval == old(r.vval) && r.count == old(r.count)',
+            '//@ loop "for i := m2.createIterator(); i.next();" invariant [C05] step: allstr(q, d.vdom[q] == (gSnapDom[q] && !(m2.vdom[q] && dslot(sip(q), len(m2.buckets)) < int(i.bucketNumber))))',
+            '//@ loop "for i := m2.createIterator(); i.next();" invariant [C05] snap: allstr(q, gSnapDom[q] == (m.vdom[q] && !gAccPrev[q])) && allstr(q, gAcc[q] == (gAccPrev[q] || m2.vdom[q]))',
+            '//@ ensures [C05] operands: forall r *redisDict :: asref(r) < old(alloc()) ==> r.vdom == old(r.vdom) && r.vval == old(r.vval) && r.count == old(r.count)',
+            '//@ ensures internal [C05] difference: !wrongType && objExists ==> allstr(q, d.vdom[q] == (m.vdom[q] && !gAcc[q]))',
+            '//@ ensures internal [C05] missing.first: !wrongType && !objExists ==> allstr(q, !d.vdom[q])',
+            '//@ use newRedisDict.empty',
+            '//@ modifies ghost.gAcc ghost.gAccPrev ghost.gSnapDom',
+            '//@ use redisDictIter.next.view.skipped redisDictIter.next.view.done redisDictIter.next.view.unique',
+            '//@ ensures [C05] result.scratch: !wrongType ==> d != nil && d.scratch'],
+ 'unionWorker': ['//@ ghostentry gAcc = gEmptySet',
+            '//@ requires free emptyset: allstr(q, !gEmptySet[q])',
+            '//@ ghostafter "m2 := sk2.getSet()" : if m2 != nil : gSnapDom = d.vdom',
+            '//@ ghostafter "m2 := sk2.getSet()" : if m2 != nil : gAccPrev = gAcc',
+            '//@ ghostafter "m2 := sk2.getSet()" : if m2 != nil : gAcc = mapunion(gAcc, m2.vdom)',
+            '//@ loop "for _, keyName := range keyNames" invariant [C05] fresh: d != nil && m != nil && d.scratch && d != m && !wrongType',
+            '//@ loop "for _, keyName := range keyNames" invariant [C05] operands: forall r *redisDict :: asref(r) < old(alloc()) ==> r.vdom == old(r.vdom) && r.vval == old(r.vval) && r.count == old(r.count)',
+            '//@ loop "for _, keyName := range keyNames" invariant [C05] result: allstr(q, d.vdom[q] == (m.vdom[q] || gAcc[q]))',
+            '//@ loop "for i := m2.createIterator(); i.next();" invariant [C05] fresh: d != nil && m != nil && m2 != nil && d.scratch && d != m && !m2.scratch && i != nil && i.dict == m2 && !wrongType',
+            '//@ loop "for i := m2.createIterator(); i.next();" invariant [C05] operands: forall r *redisDict :: asref(r) < old(alloc()) ==> r.vdom == old(r.vdom) && r.vval == old(r.vval) && r.count == old(r.count)',
+            '//@ loop "for i := m2.createIterator(); i.next();" invariant [C05] step: allstr(q, d.vdom[q] == (gSnapDom[q] || (m2.vdom[q] && dslot(sip(q), len(m2.buckets)) < int(i.bucketNumber))))',
+            '//@ loop "for i := m2.createIterator(); i.next();" invariant [C05] snap: allstr(q, gSnapDom[q] == (m.vdom[q] || gAccPrev[q])) && allstr(q, gAcc[q] == (gAccPrev[q] || m2.vdom[q]))',
+            '//@ ensures [C05] operands: forall r *redisDict :: asref(r) < old(alloc()) ==> r.vdom == old(r.vdom) && r.vval == old(r.vval) && r.count == old(r.count)',
+            '//@ ensures internal [C05] union: !wrongType ==> allstr(q, d.vdom[q] == (m.vdom[q] || gAcc[q]))',
+            '//@ modifies ghost.gAcc ghost.gAccPrev ghost.gSnapDom',
+            '//@ use redisDictIter.next.view.skipped redisDictIter.next.view.done redisDictIter.next.view.unique',
+            '//@ ensures [C05] result.scratch: !wrongType ==> d != nil && d.scratch'],
+ 'intersectWorker': ['//@ ghostentry gAcc = gFullSet',
+            '//@ requires free fullset: allstr(q, gFullSet[q])',
+            '//@ requires free emptyset: allstr(q, !gEmptySet[q])',
+            '//@ ghostafter "removalNames := []string{}" : gSnapDom = d.vdom',
+            '//@ ghostafter "removalNames := []string{}" : gAccPrev = gAcc',
+            '//@ ghostafter "removalNames := []string{}" : gAcc = mapinter(gAcc, m2.vdom)',
+            '//@ ghostafter "removalNames := []string{}" : gRem = gEmptySet',
+            '//@ ghostafter "removalNames := []string{}" : gDone = gEmptySet',
+            '//@ ghostafter "removalNames = append(removalNames, i.key)" : gRem = mapset(gRem, i.key, true)',
+            '//@ ghostafter "removalNames = append(removalNames, i.key)" : gRemIdx = mapset(gRemIdx, i.key, len(removalNames)-1)',
+            '//@ ghostafter "d.remove(removalName)" : gDone = mapset(gDone, removalName, true)',
+            '//@ ghostafter "d = newRedisDict()" : gAcc = gEmptySet',
+            '//@ use newRedisDict.empty',
+            '//@ ensures internal [C05] intersection: !wrongType && objExists ==> allstr(q, d.vdom[q] == (m.vdom[q] && gAcc[q]))',
+            '//@ ensures internal [C05] missing.first: !wrongType && !objExists ==> allstr(q, !d.vdom[q])',
+            '//@ loop "for _, keyName := range keyNames" invariant [C05] fresh: d != nil && m != nil && d.scratch && !m.scratch && !wrongType && dictSized(m)',
+            '//@ loop "for _, keyName := range keyNames" invariant [C05] operands: forall r *redisDict :: !r.scratch ==> r.vdom == old(r.vdom) && r.vval == old(r.vval) && r.count == old(r.count)',
+            '//@ loop "for _, keyName := range keyNames" invariant [C05] result: allstr(q, d.vdom[q] == (m.vdom[q] && gAcc[q]))',
+            '//@ loop "for i := m.createIterator(); i.next();" invariant [C05] fresh: d != nil && m != nil && m2 != nil && d.scratch && !m.scratch && !m2.scratch && i != nil && i.dict == m && !wrongType && d.vdom == gSnapDom && dictSized(m)',
+            '//@ loop "for i := m.createIterator(); i.next();" invariant [C05] operands: forall r *redisDict :: !r.scratch ==> r.vdom == old(r.vdom) && r.vval == old(r.vval) && r.count == old(r.count)',
+            '//@ loop "for i := m.createIterator(); i.next();" invariant [C05] collected: allstr(q, gRem[q] == (m.vdom[q] && !m2.vdom[q] && dslot(sip(q), len(m.buckets)) < int(i.bucketNumber)))',
+            '//@ loop "for i := m.createIterator(); i.next();" invariant [C05] witness: allstr(q, !gRem[q] || (0 <= gRemIdx[q] && gRemIdx[q] < len(removalNames) && removalNames[gRemIdx[q]] == q))',
+            '//@ loop "for i := m.createIterator(); i.next();" invariant [C05] listed: allsel(k, 0, len(removalNames), gRem[removalNames[k]])',
+            '//@ loop "for i := m.createIterator(); i.next();" invariant [C05] snap: allstr(q, gSnapDom[q] == (m.vdom[q] && gAccPrev[q])) && allstr(q, gAcc[q] == (gAccPrev[q] && m2.vdom[q])) && allstr(q, !gDone[q])',
+            '//@ loop "for _, removalName := range removalNames" invariant [C05] fresh: d != nil && m != nil && m2 != nil && d.scratch && !m.scratch && !m2.scratch && !wrongType && dictSized(m)',
+            '//@ loop "for _, removalName := range removalNames" invariant [C05] operands: forall r *redisDict :: !r.scratch ==> r.vdom == old(r.vdom) && r.vval == old(r.vval) && r.count == old(r.count)',
+            '//@ loop "for _, removalName := range removalNames" invariant [C05] removing: allstr(q, d.vdom[q] == (gSnapDom[q] && !gDone[q])) && allstr(q, !gDone[q] || gRem[q])',
+            '//@ loop "for _, removalName := range removalNames" invariant [C05] progress: allstr(q, !(gRem[q] && gRemIdx[q] < ri3) || gDone[q])',
+            '//@ loop "for _, removalName := range removalNames" invariant [C05] keep: allstr(q, gRem[q] == (m.vdom[q] && !m2.vdom[q])) && allstr(q, !gRem[q] || (0 <= gRemIdx[q] && gRemIdx[q] < len(removalNames) && removalNames[gRemIdx[q]] == q)) && allstr(q, gSnapDom[q] == (m.vdom[q] && gAccPrev[q])) && allstr(q, gAcc[q] == (gAccPrev[q] && m2.vdom[q]))',
+            '//@ modifies ghost.gAcc ghost.gAccPrev ghost.gSnapDom ghost.gRem ghost.gRemIdx ghost.gDone',
+            '//@ use redisDictIter.next.view.skipped redisDictIter.next.view.done redisDictIter.next.view.unique',
+            '//@ ensures [C05] operands: forall r *redisDict :: !r.scratch ==> r.vdom == old(r.vdom) && r.vval == old(r.vval) && r.count == old(r.count)',
+            '//@ ensures [C05] result.scratch: !wrongType ==> d != nil && d.scratch'],
+ 'setRemove': ['//@ loop "for _, member := range members" invariant [C05] gone: m != nil && allsel(i, 0, ri1, !m.vdom[members[i]])',
+            '//@ loop "for _, member := range members" invariant [C05] others: allstr(q, !m.vdom[q] || old(m.vdom[q]))',
+            '//@ ensures internal [C05] gone: objExists && m != nil ==> allsel(i, 0, len(members), !m.vdom[members[i]])',
+            '//@ ensures internal [C05] emptied: objExists && m != nil && removals > 0 && m.count == 0 ==> !dsc.ds.data.vdom[keyName]'],
+ 'setMove': ['//@ ensures internal [C05] same: objExists && ss != nil && exists && source == destination ==> output.data == respInt(1) && !mutated',
+            '//@ ensures internal [C05] moved: objExists && ss != nil && exists && source != destination && !wrongType ==> !ss.vdom[memberName] && output.data == respInt(1)',
+            '//@ ensures internal [C05] emptied: objExists && ss != nil && exists && source != destination && !wrongType && ss.count == 0 ==> !dsc.ds.data.vdom[source]',
+            '//@ ensures internal [C05] absent: objExists && ss != nil && !exists ==> output.data == respInt(0) && !mutated'],
+ 'setOperationStore': ['//@ callback op oneof diffWorker unionWorker intersectWorker',
+            '//@ ensures internal [C05] empty.deletes: !wrongType && d.count == 0 ==> !dsc.ds.data.vdom[destination] && output.data == respInt(0)',
+            '//@ ensures internal [C05] stored: !wrongType && d.count != 0 ==> dsc.ds.data.vdom[destination] && istype(dsc.ds.data.vval[destination], *storeKey) && unbox(dsc.ds.data.vval[destination], *storeKey).payload == d && flagHasOne(unbox(dsc.ds.data.vval[destination], *storeKey).flags, FLAG_KEY_TYPE_SET)'],
+ 'setOperation': ['//@ callback op oneof diffWorker unionWorker intersectWorker'],
+ 'setOperationCount': ['//@ callback op oneof intersectWithLimitWorker'],
+ 'intersectWithLimitWorker': ['//@ ensures [C05] operands: forall r *redisDict :: !r.scratch ==> r.vdom == old(r.vdom) && r.vval == old(r.vval) && r.count == old(r.count)',
+            '//@ ensures [C05] result.scratch: !wrongType ==> d != nil && d.scratch',
+            '//@ loop 1 invariant [C05] operands: forall r *redisDict :: !r.scratch ==> r.vdom == old(r.vdom) && r.vval == old(r.vval) && r.count == old(r.count)',
+            '//@ loop "for iter := s1.createIterator(); iter.next();" invariant [C05] operands: forall r *redisDict :: !r.scratch ==> r.vdom == old(r.vdom) && r.vval == old(r.vval) && r.count == old(r.count)',
+            '//@ loop 1 invariant [C05] sets: !wrongType && allsel(k, 0, len(sets), sets[k] != nil && !sets[k].scratch)',
+            '//@ loop "for iter := s1.createIterator(); iter.next();" invariant [C05] sets: allsel(k, 0, len(sets), sets[k] != nil && !sets[k].scratch) && s1 != nil && !s1.scratch',
+            '//@ loop "for i := 1; i < len(sets); i++" invariant [C05] sets: allsel(k, 0, len(sets), sets[k] != nil && !sets[k].scratch) && i >= 1',
+            '//@ loop "for iter := s1.createIterator(); iter.next();" invariant [C05] fresh: d != nil && d.scratch && !wrongType',
+            '//@ loop "for i := 1; i < len(sets); i++" invariant [C05] operands: forall r *redisDict :: !r.scratch ==> r.vdom == old(r.vdom) && r.vval == old(r.vval) && r.count == old(r.count)',
+            '//@ loop "for i := 1; i < len(sets); i++" invariant [C05] fresh: d != nil && d.scratch && !wrongType'],
  'dictScanUnlocked': ['//@ callback isMatch','//@ pure','//@ endcallback'],
  'changeBits': ['//@ requires len(srcKeyNames) >= 1','//@ loop 1 invariant len(values) == ri1','//@ loop 2 invariant ri2 > 0 ==> resultBytes != nil'],
 }
